@@ -124,7 +124,13 @@ func (i Interval) Length() float64 {
 	if l > 0 {
 		return l
 	}
-	return -1
+	// Only the empty interval has a negative length. A non-empty inverted
+	// interval can be so short (Lo = π, Hi one ulp above -π) that its length
+	// rounds to zero.
+	if i.IsEmpty() {
+		return -1
+	}
+	return 0
 }
 
 // Assumes p ∈ (-π,π].
